@@ -1001,6 +1001,8 @@ func (c *CreateIndexStatement) SQL() string {
 		}
 		if col.NullsLast {
 			s += " NULLS LAST"
+		} else if col.NullsFirst {
+			s += " NULLS FIRST"
 		}
 		cols[i] = s
 	}
